@@ -10,6 +10,8 @@ Svc(name, ord, rq, pos, neg) == [name |-> name, ord |-> ord, rq |-> rq, pos |-> 
 \* Se: v           -> 40 v           (empty constant prefix)
 \* Sf: 31 v v      -> 71 v v
 \* Sg: 22 v v      -> 62 v v         (same prefix as Sb, different length)
+\* Sh: 2EF1 v      -> 6EF1 v         (SID and identifier in ONE 16 bit constant)
+\* Si: 85 v        -> C5 v           neg 7F 85 NRC{12} and, a second response, 7F 85 NRC{22}
 MCServices == {
   Svc("Sa", 1, Obj("RQ_Sa", <<16>>, 1, -1, {}), <<Obj("PR_Sa", <<80>>, 1, -1, {})>>, <<>>),
   Svc("Sb", 2, Obj("RQ_Sb", <<34>>, 1, -1, {}), <<Obj("PR_Sb", <<98>>, 1, -1, {})>>, <<Obj("NR_Sb", <<127, 34>>, 1, 2, {49, 51})>>),
@@ -17,11 +19,14 @@ MCServices == {
   Svc("Sd", 4, Obj("RQ_Sd", <<34, 241, 144>>, 0, -1, {}), <<Obj("PR_Sd", <<98, 241, 144>>, 1, -1, {})>>, <<>>),
   Svc("Se", 5, Obj("RQ_Se", <<>>, 1, -1, {}), <<Obj("PR_Se", <<64>>, 1, -1, {})>>, <<>>),
   Svc("Sf", 6, Obj("RQ_Sf", <<49>>, 2, -1, {}), <<Obj("PR_Sf", <<113>>, 2, -1, {})>>, <<>>),
-  Svc("Sg", 7, Obj("RQ_Sg", <<34>>, 2, -1, {}), <<Obj("PR_Sg", <<98>>, 2, -1, {})>>, <<>>)
+  Svc("Sg", 7, Obj("RQ_Sg", <<34>>, 2, -1, {}), <<Obj("PR_Sg", <<98>>, 2, -1, {})>>, <<>>),
+  Svc("Sh", 8, Obj("RQ_Sh", <<46, 241>>, 1, -1, {}), <<Obj("PR_Sh", <<110, 241>>, 1, -1, {})>>, <<>>),
+  Svc("Si", 9, Obj("RQ_Si", <<133>>, 1, -1, {}), <<Obj("PR_Si", <<197>>, 1, -1, {})>>,
+      <<Obj("NR_Si", <<127, 133>>, 1, 2, {18}), Obj("NR_Si_2", <<127, 133>>, 1, 2, {34})>>)
 }
 \* global negative responses: with the echo of the request's first byte, and without
 MCGnrs == {<<>>, <<[name |-> "GNR1", echo |-> TRUE]>>, <<[name |-> "GNR2", echo |-> FALSE]>>}
-MCBytes == {16, 34, 241, 144, 49, 98, 127, 5}
+MCBytes == {16, 34, 241, 144, 49, 98, 127, 5, 46, 133}
 
 AllMsgs == Messages \cup OwnMessages(layer)
 OwnMsg(o) == o.pre \o [k \in 1..o.n |-> IF o.nrcpos = Len(o.pre) + k - 1 THEN (CHOOSE v \in o.nrcs : TRUE) ELSE 5]
